@@ -20,6 +20,15 @@ for tc in ET.parse(out).getroot().iter("testcase"):
 os.unlink(out)
 sp = set(base["stable_pass"])
 print("passed", len(passed), "failed", len(failed))
+# tests that carry Z3 timeouts fail under machine load: re-run apparent regressions one by one
+for tid in sorted(sp - passed):
+    cls, name = tid.split("::")
+    mod = cls.rsplit(".", 1)[0].replace(".", "/") + ".py"
+    r = subprocess.run(["/venv/bin/python", "-m", "pytest", "-q", "-p", "no:cacheprovider", "-p", "no:randomly", "--timeout=900",
+                        "%s::%s::%s" % (mod, cls.rsplit(".", 1)[1], name)], cwd=repo, env=env, stdout=subprocess.PIPE, stderr=subprocess.STDOUT)
+    if r.returncode == 0:
+        print("  (passes when run alone: %s)" % tid)
+        passed.add(tid)
 print("REGRESSIONS (baseline pass, now not passing):", sorted(sp - passed))
 print("newly passing:", sorted(passed - sp))
 sys.exit(1 if sp - passed else 0)
